@@ -42,6 +42,7 @@ struct Tracker {
 	logged: usize,
 	record_ids: Vec<u64>,          // record ids in append order
 	record_log: Vec<u64>,          // log file id of each record
+	is_commit: Vec<bool>,          // whether the record carries a commit (false: a reindex batch)
 	synced_records: HashSet<u64>,
 	enacted: usize,
 	truncated: usize,
@@ -54,6 +55,8 @@ struct Tracker {
 	rng: Rng,
 	images: Vec<Image>,
 	max_images: usize,
+	seen: u64,
+	serial: u64,
 	enabled: bool,
 	damage: bool,
 	power_only: bool,
@@ -64,6 +67,8 @@ static TRACKER: Mutex<Option<Tracker>> = Mutex::new(None);
 /// and the random decisions left for this history
 static DBPTR: std::sync::atomic::AtomicUsize = std::sync::atomic::AtomicUsize::new(0);
 static IN_CLEAN: std::sync::atomic::AtomicBool = std::sync::atomic::AtomicBool::new(false);
+/// set while the harness runs process_reindex: records appended meanwhile carry no commit
+static REINDEXING: std::sync::atomic::AtomicBool = std::sync::atomic::AtomicBool::new(false);
 static INTERLEAVE_BUDGET: std::sync::atomic::AtomicUsize = std::sync::atomic::AtomicUsize::new(0);
 static INTERLEAVED: std::sync::atomic::AtomicUsize = std::sync::atomic::AtomicUsize::new(0);
 
@@ -132,6 +137,10 @@ fn table_file_name(kind_id: u64) -> String {
 }
 
 impl Tracker {
+	/// number of commits among the first `nrec` records
+	fn commits_in(&self, nrec: usize) -> usize {
+		self.is_commit.iter().take(nrec).filter(|b| **b).count()
+	}
 	fn synced_count(&self) -> usize {
 		self.record_ids.iter().take_while(|r| self.synced_records.contains(r)).count()
 	}
@@ -155,8 +164,27 @@ impl Tracker {
 		}
 	}
 
+	/// reservoir sampling over all the instants of a history: every instant has the same chance to be
+	/// among the at most `max_images` images that are kept (long histories would otherwise spend the
+	/// whole budget on their first steps)
+	fn admit(&mut self) -> bool {
+		self.seen += 1;
+		if self.images.len() < self.max_images {
+			return true
+		}
+		let j = self.rng.below(self.seen) as usize;
+		if j < self.max_images {
+			let old = self.images.swap_remove(j);
+			let _ = std::fs::remove_dir_all(&old.dir);
+			true
+		} else {
+			false
+		}
+	}
+
 	fn new_image_dir(&mut self, tag: &str) -> PathBuf {
-		let d = self.img_root.join(format!("img{:04}-{tag}", self.images.len()));
+		self.serial += 1;
+		let d = self.img_root.join(format!("img{:05}-{tag}", self.serial));
 		let _ = std::fs::remove_dir_all(&d);
 		std::fs::create_dir_all(&d).unwrap();
 		d
@@ -170,7 +198,7 @@ impl Tracker {
 
 	/// process crash: everything the page cache holds
 	fn take_crash(&mut self, desc: &str, torn: Option<(u64, u64, u64)>) {
-		if !self.enabled || self.images.len() >= self.max_images {
+		if !self.enabled || !self.admit() {
 			return
 		}
 		let kind = if torn.is_some() { "torn-log" } else { "crash" };
@@ -181,7 +209,7 @@ impl Tracker {
 			}
 			Self::copy_sparse(&self.dir.join(&n), &d.join(&n));
 		}
-		let (mut lo, hi) = (self.logged, self.logged);
+		let (mut lo, hi) = (self.commits_in(self.logged), self.commits_in(self.logged));
 		let mut desc = desc.to_string();
 		if let Some((log_id, before, after)) = torn {
 			// cut the record that was just appended somewhere inside
@@ -190,7 +218,7 @@ impl Tracker {
 			let mut data = std::fs::read(&p).unwrap_or_default();
 			data.truncate(cut as usize);
 			std::fs::write(&p, &data).unwrap();
-			lo = self.logged - 1;
+			lo = self.commits_in(self.logged - 1);
 			desc = format!("{desc}; last record cut at byte {} of {}", cut - before, after - before);
 		}
 		let (enacted, record_ids) = (self.enacted, self.record_ids.clone());
@@ -199,7 +227,7 @@ impl Tracker {
 
 	/// power loss: per page either the synced or the current content; logs keep a prefix of the unsynced tail
 	fn take_power(&mut self, desc: &str) {
-		if !self.enabled || self.images.len() >= self.max_images {
+		if !self.enabled || !self.admit() {
 			return
 		}
 		let d = self.new_image_dir("power");
@@ -245,9 +273,9 @@ impl Tracker {
 			};
 			Self::write_sparse(&d.join(&n), &data);
 		}
-		let lo = self.synced_count();
+		let lo = self.commits_in(self.synced_count());
 		let (enacted, record_ids) = (self.enacted, self.record_ids.clone());
-		self.images.push(Image { dir: d, kind: "power", m_lo: lo, m_hi: self.logged, desc: format!("{desc}; {}", notes.join(", ")), enacted, record_ids });
+		self.images.push(Image { dir: d, kind: "power", m_lo: lo, m_hi: self.commits_in(self.logged), desc: format!("{desc}; {}", notes.join(", ")), enacted, record_ids });
 	}
 
 	fn sample(&mut self, crash_num: u64, crash_den: u64, power_num: u64, power_den: u64, desc: &str) {
@@ -284,6 +312,7 @@ fn on_event(kind: &'static str, a: u64, b: u64) {
 			t.logged += 1;
 			t.record_ids.push(a);
 			t.record_log.push(b);
+			t.is_commit.push(!REINDEXING.load(std::sync::atomic::Ordering::SeqCst));
 			t.stores_of.push(vec![]);
 			t.events.push((1, (t.record_ids.len() - 1) as u64));
 			let p = t.dir.join(format!("log{b}"));
@@ -393,6 +422,12 @@ fn on_sys(e: Sys) {
 				}
 				t.log_len_before.insert(id, 0);
 				t.durable.remove(&n);
+			} else if let Some(id) = t.file_ids.get(&n).cloned() {
+				// a table file that is deleted (an index or ref count table whose reindexing is complete):
+				// none of its cells is ever read again, nothing of it can be lost any more
+				t.dirty_files.remove(&n);
+				t.durable.remove(&n);
+				t.events.push((7, id));
 			}
 		},
 	});
@@ -564,7 +599,12 @@ pub fn main(args: &[String], kind: &str) -> i32 {
 	interpose::set_after_msync(Some(Box::new(interleave_enact)));
 	for hi in 0..count {
 		// a history of the usual kind, without clean reopen steps before the end so that the pipeline gets deep
-		let mut case = hist::gen_case(&mut rng, "c02");
+		// a quarter of the C02 / C12 histories grow the index (66-90 keys sharing an index page, reindex steps)
+		let growth = (kind == "c02" || kind == "c12") && rng.chance(1, 4);
+		let mut case = if growth { hist::gen_case_growth(&mut rng, None) } else { hist::gen_case(&mut rng, "c02") };
+		if growth {
+			*dist.entry("histories-with-index-growth".into()).or_insert(0) += 1;
+		}
 		case.steps.retain(|s| !matches!(s, Step::Reopen));
 		// so that a clean step often finds a synced, not yet enacted log beside the logs it cleans
 		// (the stage interleaving of C12): before half of the clean steps a repeated commit is logged and synced
@@ -601,6 +641,7 @@ pub fn main(args: &[String], kind: &str) -> i32 {
 			logged: 0,
 			record_ids: vec![],
 			record_log: vec![],
+			is_commit: vec![],
 			synced_records: HashSet::new(),
 			enacted: 0,
 			truncated: 0,
@@ -612,7 +653,9 @@ pub fn main(args: &[String], kind: &str) -> i32 {
 			log_len_before: HashMap::new(),
 			rng: rng.fork(),
 			images: vec![],
-			max_images: if kind == "c13" { 12 } else { 40 },
+			max_images: if kind == "c13" { 12 } else if growth { 14 } else { 40 },
+			seen: 0,
+			serial: 0,
 			enabled: false,
 			damage: kind == "c13",
 			power_only: kind == "c12",
@@ -715,6 +758,12 @@ pub fn main(args: &[String], kind: &str) -> i32 {
 						IN_CLEAN.store(false, std::sync::atomic::Ordering::SeqCst);
 						stage = Some(r);
 					},
+					Step::Reindex => {
+						REINDEXING.store(true, std::sync::atomic::Ordering::SeqCst);
+						let r = db.process_reindex();
+						REINDEXING.store(false, std::sync::atomic::Ordering::SeqCst);
+						stage = Some(r.map(|_| ()));
+					},
 					_ => (),
 				}
 				if let Some(Err(e)) = stage {
@@ -722,7 +771,7 @@ pub fn main(args: &[String], kind: &str) -> i32 {
 						panic!("stage failed without any injected failure: {e:?}");
 					}
 					// what a background worker does with the error of its stage
-					let synced = with(|t| t.synced_count()).unwrap_or(0);
+					let synced = with(|t| t.commits_in(t.synced_count())).unwrap_or(0);
 					*failure.lock().unwrap() = Some((si, synced, format!("{e:?}")));
 					failed = true;
 					db.verif_store_err(Err(e));
@@ -745,7 +794,7 @@ pub fn main(args: &[String], kind: &str) -> i32 {
 			with(|t| t.enabled = false);
 			DBPTR.store(0, std::sync::atomic::Ordering::SeqCst);
 			// the failure persists until the handle is gone
-			*synced_at_drop.lock().unwrap() = with(|t| t.synced_count());
+			*synced_at_drop.lock().unwrap() = with(|t| t.commits_in(t.synced_count()));
 			if lift_before_drop {
 				// a fault that hit the writer but not the shutdown (e.g. a full disk: truncations still work;
 				// or the failing thread was a worker, the dropping thread is not)
